@@ -1,7 +1,7 @@
 (* C20 — property theorems only.  Each is closed by [exact <lemma>] and followed by Print Assumptions.
    Vectors have one entry per chemical and any length; [colsum ins i] is the sum over the inlets of
    chemical i; [nonneg v] / [bounded feed v] mean 0 <= v_i (<= feed_i) for every i. *)
-From V Require Import Common.NumFacts C20.Model C20.Proofs.
+From V Require Import Common.NumFacts C20.Model C20.Proofs C20.ProofsDeep.
 Open Scope Q_scope.
 
 (* ------------------------------------------------------------------ mix_and_split *)
@@ -683,3 +683,144 @@ Example C20_ex_balance :
   resvl_approxb (material_balance solve 3 [0; 1]%nat vin cin cout true) (Ok [[12; 12; 0]; [0; 0; 0]]) = true /\
   veqb (matvec (mb_matrix [0; 1]%nat vin) [12; 0]) (mb_rhs 3 [0; 1]%nat cin cout) = true.
 Proof. qc. Qed.
+
+(* ================================================================== deepening: other-package inlets end to end *)
+(* [flow_of pk v g]: flow of the chemical with identity g in a vector laid out on package pk (0 if pk lacks it);
+   [inlets_flow rk ins g]: sum over the inlets of their flow of g, each read on its own package;
+   [wf_inlet]: own-package inlets have the receiver's length; an inlet of another package lists distinct positions of
+   its package in its entry order, lists every non-zero flow, and every listed chemical is known to the receiver *)
+
+(* one call, per chemical IDENTITY: top + bottom = sum of all inlets, for inlets on any packages (permutations, sub- and
+   supersets), any entry orders and any valid cache content; the call does not fail and the top holds split * mixed *)
+Theorem C20_mix_other_packages_conserves : forall n rk s ins split,
+  NoDup rk -> length rk = n -> length split = n -> cache_ok rk (pk_cache s) ->
+  Forall (wf_inlet n rk) ins ->
+  let r := mix_and_split_pk n rk s ins split in
+  snd r = None /\ cache_ok rk (pk_cache (fst r)) /\
+  forall g, flow_of rk (pk_top (fst r)) g + flow_of rk (pk_bot (fst r)) g == inlets_flow rk ins g /\
+            flow_of rk (pk_top (fst r)) g == flow_of rk split g * inlets_flow rk ins g.
+Proof. exact mix_pk_conserves_lemma. Qed.
+Print Assumptions C20_mix_other_packages_conserves.
+
+(* the same over every history of calls on the same outlets: each call conserves every chemical of its own inlets *)
+Theorem C20_mix_history_conserves : forall n rk s calls,
+  NoDup rk -> length rk = n -> cache_ok rk (pk_cache s) ->
+  Forall (fun c => Forall (wf_inlet n rk) (fst c) /\ length (snd c) = n) calls ->
+  calls_conserve rk calls (run_calls n rk s calls).
+Proof. exact run_calls_conserve_lemma. Qed.
+Print Assumptions C20_mix_history_conserves.
+
+(* the error branch: a non-empty inlet carries a chemical the receiver's package lacks -> UndefinedChemicalAlias, bottom
+   untouched, top untouched unless it was the only non-empty inlet (then emptied), cache still valid *)
+Theorem C20_mix_unknown_chemical_state : forall n rk s ins split,
+  cache_ok rk (pk_cache s) -> has_unknown rk (filter finlet_nonempty ins) ->
+  let r := mix_and_split_pk n rk s ins split in
+  snd r = Some EKey /\ pk_bot (fst r) = pk_bot s /\
+  pk_top (fst r) = (if Nat.eqb (length (filter finlet_nonempty ins)) 1 then vzero n else pk_top s) /\
+  cache_ok rk (pk_cache (fst r)).
+Proof. exact mix_pk_unknown_lemma. Qed.
+Print Assumptions C20_mix_unknown_chemical_state.
+
+(* histories mixing good and failing calls: every call either conserves all chemicals or reports the unknown chemical
+   and leaves the documented state; a failure never spoils a later call *)
+Theorem C20_mix_history_outcomes : forall n rk s calls,
+  NoDup rk -> length rk = n -> cache_ok rk (pk_cache s) ->
+  Forall (fun c => (Forall (wf_inlet n rk) (fst c) /\ length (snd c) = n) \/
+                   has_unknown rk (filter finlet_nonempty (fst c))) calls ->
+  calls_outcome n rk (pk_top s) (pk_bot s) calls (run_calls n rk s calls).
+Proof. exact run_calls_outcome_lemma. Qed.
+Print Assumptions C20_mix_history_outcomes.
+
+(* non-negative inlets on any packages, splits in [0, 1]: no negative outlet flow *)
+Theorem C20_mix_other_packages_nonneg : forall n rk s ins split,
+  NoDup rk -> length rk = n -> length split = n -> cache_ok rk (pk_cache s) ->
+  Forall (wf_inlet n rk) ins ->
+  (forall i, In i ins -> forall k, 0 <= nthq (fi_flows i) k) -> (forall k, 0 <= nthq split k <= 1) ->
+  let r := mix_and_split_pk n rk s ins split in
+  forall j, (j < n)%nat -> 0 <= nthq (pk_top (fst r)) j /\ 0 <= nthq (pk_bot (fst r)) j.
+Proof. exact mix_pk_nonneg_lemma. Qed.
+Print Assumptions C20_mix_other_packages_nonneg.
+
+(* ================================================================== deepening: partition with the repository's solver *)
+(* all paths of binary_phase_fraction.phase_fraction (closed form for two chemicals without forced ones, Rachford-Rice
+   wrapper otherwise), single contract "an interior value of the numeric root finder is a root": whenever both phases
+   form, the phase totals are phi F and (1 - phi) F and the mole fractions over equilibrium + forced chemicals
+   reproduce K exactly *)
+Theorem C20_partition_real_K_exact : forall rootf,
+  (forall zs Ks za zb, 0 < rootf zs Ks za zb < 1 -> rr_objective (rootf zs Ks za zb) zs Ks za zb == 0) ->
+  forall feed top0 bot0 ids K topc botc strict phi,
+  length feed = length bot0 -> nonneg feed ->
+  NoDup ids -> (forall i, In i ids -> (i < length bot0)%nat) ->
+  (2 <= length ids)%nat -> length K = length ids -> (forall k, 0 <= nthq K k) ->
+  let r := partition (pf_real rootf) feed top0 bot0 ids K topc botc strict in
+  p_phi r = Ok phi -> 0 < phi < 1 ->
+  let Fa := forced_sum feed topc in
+  let Fb := forced_sum feed botc in
+  let F := qsum (gather feed ids) + (Fa + Fb) in
+  let T := qsum (gather (p_top r) ids) + Fa in
+  let B := qsum (gather (p_bot r) ids) + Fb in
+  T == phi * F /\ B == (1 - phi) * F /\
+  forall k, (k < length ids)%nat -> ~ nthq (p_bot r) (nth k ids 0%nat) == 0 ->
+    (nthq (p_top r) (nth k ids 0%nat) / T) / (nthq (p_bot r) (nth k ids 0%nat) / B) == nthq K k.
+Proof. exact partition_real_K_exact. Qed.
+Print Assumptions C20_partition_real_K_exact.
+
+(* ---- non-vacuity of the deepening theorems *)
+(* receiver package [0;1;2]; one inlet on the package [2;0;1] entering chemical 1 then chemical 0, one own-package inlet *)
+Definition exd_in1 := mkFI (Some [2; 0; 1]%nat) [0; 5; 7] [2; 1]%nat.
+Definition exd_in2 := mkFI None [1; 0; 4] [].
+Example C20_ex_mix_other_packages :
+  Forall (wf_inlet 3 [0; 1; 2]%nat) [exd_in1; exd_in2] /\ NoDup [0; 1; 2]%nat /\ cache_ok [0; 1; 2]%nat [] /\
+  inlets_flow [0; 1; 2]%nat [exd_in1; exd_in2] 0%nat == 6 /\ inlets_flow [0; 1; 2]%nat [exd_in1; exd_in2] 1%nat == 7 /\
+  inlets_flow [0; 1; 2]%nat [exd_in1; exd_in2] 2%nat == 4 /\
+  call_eqb (let r := mix_and_split_pk 3 [0; 1; 2]%nat (mkPK [9; 9; 9] [9; 9; 9] []) [exd_in1; exd_in2] [1 # 2; 1; 0] in
+            (pk_top (fst r), pk_bot (fst r), snd r)) ([3; 7; 0], [3; 0; 4], None) = true.
+Proof.
+  assert (W1 : wf_inlet 3 [0; 1; 2]%nat exd_in1).
+  { unfold wf_inlet, exd_in1; cbn [fi_pk fi_order fi_flows].
+    split; [repeat constructor; simpl; intuition lia|].
+    split; [repeat constructor; simpl; intuition lia|].
+    split; [intros k [<-|[<-|[]]]; simpl; lia|].
+    split.
+    - intros k Hk NZ. destruct k as [|[|[|k]]]; simpl in *; try lia. exfalso; apply NZ; reflexivity.
+    - intros k [<-|[<-|[]]]; simpl; discriminate. }
+  assert (W2 : wf_inlet 3 [0; 1; 2]%nat exd_in2) by reflexivity.
+  split; [exact (Forall_cons _ W1 (Forall_cons _ W2 (Forall_nil _)))|].
+  split; [repeat constructor; simpl; intuition lia|]. split; [apply cache_ok_nil|].
+  vm_compute. repeat split; reflexivity.
+Qed.
+
+(* a two-call history whose inlets are all well-formed (hypothesis of C20_mix_history_conserves) *)
+Example C20_ex_mix_history_wf :
+  Forall (fun c : list finlet * vec => Forall (wf_inlet 3 [0; 1; 2]%nat) (fst c) /\ length (snd c) = 3%nat)
+         [([exd_in1], [1; 1; 1]); ([exd_in2; exd_in1], [1 # 2; 1; 0])].
+Proof.
+  destruct C20_ex_mix_other_packages as [W _].
+  inversion W as [|? ? W1 W']; subst. inversion W' as [|? ? W2 _]; subst.
+  apply Forall_cons; [split; [exact (Forall_cons _ W1 (Forall_nil _))|reflexivity]|].
+  apply Forall_cons; [split; [exact (Forall_cons _ W2 (Forall_cons _ W1 (Forall_nil _)))|reflexivity]|].
+  apply Forall_nil.
+Qed.
+
+(* a history: good call, call with a chemical (identity 7) the receiver lacks, good call again *)
+Definition exd_bad := mkFI (Some [7; 0]%nat) [2; 3] [0; 1]%nat.
+Example C20_ex_mix_history_outcomes :
+  has_unknown [0; 1; 2]%nat (filter finlet_nonempty [exd_bad]) /\
+  list_eqb call_eqb
+    (run_calls 3 [0; 1; 2]%nat (mkPK [0; 0; 0] [0; 0; 0] [])
+       [([exd_in1], [1; 1; 1]); ([exd_bad], [1; 1; 1]); ([exd_in2; exd_bad], [1; 1; 1]); ([exd_in2], [0; 0; 0])])
+    [([5; 7; 0], [0; 0; 0], None); ([0; 0; 0], [0; 0; 0], Some EKey); ([0; 0; 0], [0; 0; 0], Some EKey);
+     ([0; 0; 0], [1; 0; 4], None)] = true.
+Proof.
+  split; [|reflexivity].
+  exists exd_bad. split; [left; reflexivity|]. exists [7; 0]%nat. split; [reflexivity|].
+  exists 0%nat. split; [left; reflexivity|reflexivity].
+Qed.
+
+(* the solver's closed-form path: equimolar binary feed, K = (2, 1/2): partition returns 1/2 and K is reproduced *)
+Example C20_ex_partition_real :
+  let r := partition (pf_real (fun _ _ _ _ => -7)) [1; 1] [0; 0] [0; 0] [0; 1]%nat [2; 1 # 2] [] [] true in
+  p_phi r = Ok (compute_phase_fraction_2N (1 # 2) (1 # 2) 2 (1 # 2)) /\
+  compute_phase_fraction_2N (1 # 2) (1 # 2) 2 (1 # 2) == 1 # 2 /\
+  (nthq (p_top r) 0 / (qsum (gather (p_top r) [0; 1]%nat) + 0)) / (nthq (p_bot r) 0 / (qsum (gather (p_bot r) [0; 1]%nat) + 0)) == 2.
+Proof. vm_compute. repeat split; reflexivity. Qed.
